@@ -14,6 +14,7 @@ import io
 import itertools
 import os
 import re
+import signal
 import warnings
 
 import numpy as np
@@ -34,6 +35,7 @@ ASSUMPTIONS = [
     "the random draw of the optimiser's built-in self-check is isolated by ift.random.Context",
     "comparison tolerance 1e-11 relative to max(1, |values|) (expressions have <= 4 products of O(1..20) numbers)",
     "operators are defined on MultiDomains (the optimiser documents this requirement by a warning)",
+    "an optimise_operator call that runs longer than 30 s wall is reported as non-terminating",
 ]
 
 SPACES = {
@@ -222,6 +224,27 @@ def top_kind(op):
     return "linear" if isinstance(op, ift.LinearOperator) else type(op).__name__
 
 
+OPT_TIME_LIMIT = 30.   # seconds of wall time for one optimise_operator call (normally milliseconds)
+
+
+class _Timeout(Exception):
+    pass
+
+
+@contextlib.contextmanager
+def time_limit(seconds):
+    """The optimiser iterates `while cond:` loops to a fixed point; a hang is reported, not waited for."""
+    def handler(signum, frame):
+        raise _Timeout()
+    old = signal.signal(signal.SIGALRM, handler)
+    signal.setitimer(signal.ITIMER_REAL, seconds)
+    try:
+        yield
+    finally:
+        signal.setitimer(signal.ITIMER_REAL, 0)
+        signal.signal(signal.SIGALRM, old)
+
+
 def run(case):
     import nifty.cl as ift
     leaves, prog = case["L"], case["p"]
@@ -241,15 +264,19 @@ def run(case):
             return bad(dev[0] + "   [%s]" % case["e"], finding_key="original-differs-from-reference|" + dev[1],
                        detail=dev[2])
         try:
-            with ift.random.Context(31):
+            with ift.random.Context(31), time_limit(OPT_TIME_LIMIT):
                 opt = ift.optimise_operator(op)
+        except _Timeout as exc:
+            return bad("optimise_operator did not terminate within %g s   [%s]" % (OPT_TIME_LIMIT, case["e"]),
+                       finding_key="does-not-terminate|%s" % _site(exc), detail=dict(features=feat))
         except AssertionError as exc:
             # the optimiser's own self-check fired: characterise the damage with the un-checked entry point
             from copy import deepcopy
             what = "optimise_operator: built-in self-check failed (optimised tree has a different value)"
             kind = "self-check-assertion"
             try:
-                raw = ift.operator_tree_optimiser._optimise_operator(deepcopy(op))
+                with time_limit(OPT_TIME_LIMIT):
+                    raw = ift.operator_tree_optimiser._optimise_operator(deepcopy(op))
                 dev2, _ = compare(raw, keys, leaves, prog, num, "_optimise_operator result")
                 if dev2 is not None:
                     what += "; " + dev2[0]
